@@ -247,7 +247,11 @@ func genCorpus(t *rapid.T, p *pools) Corpus {
 		c.FS, c.Reopen = true, true
 	}
 	c.Merge = uni(t, 10, "merger") < 3
-	c.SegV2 = uni(t, 20, "segV2") == 0
+	// segment version 2 only with the merger off: merging v2 segments reads their stored fields,
+	// and the bundled ice/v2 panics on the last document of a segment with short stored entries
+	// (getDocStoredOffsets, third-party, vlib.IceV2OffsetsPanicKey) - in the merger's goroutine,
+	// which ends the process
+	c.SegV2 = uni(t, 20, "segV2") == 0 && !c.Merge
 	nDocs := rapid.IntRange(5, 40).Draw(t, "nDocs")
 	nBatches := rapid.IntRange(2, 6).Draw(t, "nBatches")
 	var live []string
